@@ -157,7 +157,12 @@ func buildResultOutputItems(results []Result, repoDir string) []resultOutputItem
 // deriveFileURL creates a file:// URL from a relative path and repo directory.
 func deriveFileURL(relPath, repoDir string) string {
 	absPath := filepath.Join(repoDir, relPath)
-	absPath = strings.ReplaceAll(absPath, "\\", "/")
+	// Backslashes separate directories only in a Windows drive path (C:\...).
+	// Anywhere else a backslash is an ordinary byte of a file name and must
+	// stay one, or the URL names a different file.
+	if len(absPath) >= 3 && absPath[1] == ':' && absPath[2] == '\\' {
+		absPath = strings.ReplaceAll(absPath, "\\", "/")
+	}
 	absPath = filepath.ToSlash(absPath)
 	if len(absPath) >= 2 && absPath[1] == ':' && !strings.HasPrefix(absPath, "/") {
 		absPath = "/" + absPath
